@@ -23,6 +23,11 @@ VOCAB = ["MAP", "LAYER", "CLASS", "STYLE", "END", "NAME", "TYPE", "POINT", "SYMB
          ";", "$", "@", "?", "\\", '"', "'", "\x00", "é", "𝄞"]
 
 
+def include_error(ex):
+    """the two errors C15 describes for INCLUDE lines: an I/O error for a missing file, the MaxNested error for deep / cyclic inclusion"""
+    return isinstance(ex, OSError) or (isinstance(ex, ValueError) and not isinstance(ex, UnicodeError) and "nested include" in str(ex).lower())
+
+
 def lark_family(ex):
     from lark.exceptions import LarkError
     return isinstance(ex, LarkError)
@@ -129,7 +134,7 @@ def explore(ctx, scale=1.0):
                     nlines = text.count("\n") + 1
                     if not (1 <= line <= nlines + 1 and col is not None and col >= 1):
                         ctx.violation("error-position", f"{type(ex).__name__} at line {line} column {col} outside the {nlines}-line text", {"text": text})
-            elif has_include and isinstance(ex, (OSError, ValueError)):
+            elif has_include and include_error(ex):
                 ctx.count("outcome:INCLUDE line (I/O or MaxNested error is expected)")
             else:
                 ctx.violation(f"escapes:{type(ex).__name__}", f"loads raised {type(ex).__name__} ({str(ex)[:80]}) instead of a Lark parse error", {"text": text, "kind": kind})
@@ -192,12 +197,22 @@ def explore(ctx, scale=1.0):
         text = " ".join(sq)
         res, dt = run_one(text, P, limit=20)
         ctx.case(("short", text), res[0] == "err"); ctx.count(f"short-sequence:{len(sq)}")
-        if res[0] == "err" and not lark_family(res[1]) and not ("include" in text.lower() and isinstance(res[1], (OSError, ValueError))):
+        if res[0] == "err" and not lark_family(res[1]) and not ("include" in text.lower() and include_error(res[1])):
             ctx.violation(f"escapes:{type(res[1]).__name__}", f"loads raised {type(res[1]).__name__} ({str(res[1])[:60]}) on the {len(sq)}-token input {text!r}", {"text": text})
         elif res[0] == "err" and type(res[1]).__name__ in ("UnexpectedToken", "UnexpectedCharacters"):
             line, col = getattr(res[1], "line", None), getattr(res[1], "column", None)
             if line is not None and line >= 1 and not (line <= text.count("\n") + 2 and col is not None and col >= 1):
                 ctx.violation("error-position", f"{type(res[1]).__name__} at line {line} column {col} outside the text {text!r}", {"text": text})
+    # ---------------- lines that start with INCLUDE (the pre-scan of load_includes runs before, and outside, the parser's error funnel) ----------------
+    tails = ["", " ", "\t", "'", '"', '"roads.map', "'roads.map", ' "a b.map"', " 'a#b.map'", ' "x.map" "y.map"', " x\\", " 'unterminated", ' "un"terminated"', " # only a comment",
+             "#nospace", ' "a.map" # c "', " `x`", " [a]", " (", " /re/", ' ""', " ''", "d\"", "s 'x", " \x00", " é'"]
+    for tail in tails:
+        for tmpl in ("INCLUDE%s", "include%s\n", "MAP\nINCLUDE%s\nEND", "MAP\n  NAME \"a\nInclude%s\nb\"\nEND", "LAYER\n  METADATA\n    \"k\" \"two\ninclude%s\"\n  END\nEND"):
+            text = tmpl % tail
+            res, dt = run_one(text, P, limit=20)
+            ctx.case(("include-line", text), res[0] == "err"); ctx.count("include-line")
+            if res[0] == "err" and not lark_family(res[1]) and not include_error(res[1]):
+                ctx.violation(f"escapes:{type(res[1]).__name__}", f"loads raised {type(res[1]).__name__} ({str(res[1])[:60]}) on a text with a line that starts with INCLUDE", {"text": text})
     # ---------------- the 19 block types at the root ----------------
     for t in gen.BLOCK_TYPES:
         for text in (f"{t.upper()} END", f"{t.lower()}\nend", f"{t.upper()} END {t.upper()} END"):
